@@ -13,6 +13,7 @@ import (
 	"net"
 	"os"
 	"strings"
+	"sync"
 )
 
 func AcceptConnection(conn net.Conn, manager cert.TlsConfig, secure bool, channels Channels) error {
@@ -123,9 +124,51 @@ func (ch *ConnectionHandler) multiplexToUpstream(multiplexChannel net.Conn) erro
 	}()
 
 	log.Tracef("[Server] Handle channel %v", multiplexChannel)
-	if err := mux.Handle(multiplexChannel); err != nil {
+	if err := mux.Handle(&listenFirstConnection{Conn: multiplexChannel}); err != nil {
 		err = errors.Wrapf(err, "Could not handle multiplex channel: %+v", err)
 		return err
 	}
 	return nil
+}
+
+// listenFirstConnection holds back the first write on a freshly accepted logical connection
+// until the first bytes from the client have arrived. The multistream negotiation makes the
+// server speak first, but the client's multiplexer only registers a new stream after its
+// open request has been written: an answer that overtakes that registration is discarded
+// by the client and the negotiation then fails or hangs. The client always starts the
+// negotiation on its own, so waiting for it loses nothing.
+type listenFirstConnection struct {
+	net.Conn
+	mutex   sync.Mutex
+	heard   bool
+	pending []byte
+}
+
+func (c *listenFirstConnection) Read(p []byte) (int, error) {
+	c.mutex.Lock()
+	if len(c.pending) > 0 {
+		n := copy(p, c.pending)
+		c.pending = c.pending[n:]
+		c.mutex.Unlock()
+		return n, nil
+	}
+	c.heard = true
+	c.mutex.Unlock()
+	return c.Conn.Read(p)
+}
+
+func (c *listenFirstConnection) Write(p []byte) (int, error) {
+	c.mutex.Lock()
+	if !c.heard {
+		buf := make([]byte, 512)
+		n, err := c.Conn.Read(buf)
+		c.pending = append(c.pending, buf[:n]...)
+		if err != nil {
+			c.mutex.Unlock()
+			return 0, err
+		}
+		c.heard = true
+	}
+	c.mutex.Unlock()
+	return c.Conn.Write(p)
 }
